@@ -120,80 +120,106 @@ func WalkDecisionSeeded(start *ssa.BasicBlock, idx int, atoms AtomFn, asg map[st
 		}
 		return 0, false
 	}
-	b, i := start, idx
-	var prev *ssa.BasicBlock
-	for steps := 0; steps < 4000; steps++ {
-		// phis on entry
-		if i == 0 && prev != nil {
-			pi := -1
-			for k, p := range b.Preds {
-				if p == prev {
-					pi = k
+	steps := 0
+	var walk func(b *ssa.BasicBlock, i int, prev *ssa.BasicBlock, depth int) (string, error)
+	walk = func(b *ssa.BasicBlock, i int, prev *ssa.BasicBlock, depth int) (string, error) {
+		for {
+			if steps++; steps > 20000 {
+				return "", fmt.Errorf("walk did not terminate (loop without outcome)")
+			}
+			// phis on entry
+			if i == 0 && prev != nil {
+				pi := -1
+				for k, p := range b.Preds {
+					if p == prev {
+						pi = k
+					}
+				}
+				type upd struct {
+					v  ssa.Value
+					k  int8
+					ok bool
+				}
+				var ups []upd
+				for _, in := range b.Instrs {
+					phi, ok := in.(*ssa.Phi)
+					if !ok {
+						break
+					}
+					if pi < 0 || pi >= len(phi.Edges) {
+						continue
+					}
+					k, okv := evalV(phi.Edges[pi], 0)
+					ups = append(ups, upd{phi, k, okv})
+				}
+				for _, u := range ups {
+					if u.ok {
+						env[u.v] = u.k
+					} else {
+						delete(env, u.v)
+					}
 				}
 			}
-			type upd struct {
-				v ssa.Value
-				k int8
-				ok bool
-			}
-			var ups []upd
-			for _, in := range b.Instrs {
-				phi, ok := in.(*ssa.Phi)
-				if !ok {
+			next := (*ssa.BasicBlock)(nil)
+			for ; i < len(b.Instrs); i++ {
+				in := b.Instrs[i]
+				if lab := outcome(in); lab != "" {
+					return lab, nil
+				}
+				switch x := in.(type) {
+				case *ssa.If:
+					k, ok := evalV(x.Cond, 0)
+					if !ok {
+						// a condition the table does not know: harmless if it cannot change the outcome
+						if depth > 6 {
+							return "", fmt.Errorf("condition %s at block %d is neither an atom nor evaluable", x.Cond.String(), b.Index)
+						}
+						saved := map[ssa.Value]int8{}
+						for kk, vv := range env {
+							saved[kk] = vv
+						}
+						o0, e0 := walk(b.Succs[0], 0, b, depth+1)
+						for kk := range env {
+							delete(env, kk)
+						}
+						for kk, vv := range saved {
+							env[kk] = vv
+						}
+						o1, e1 := walk(b.Succs[1], 0, b, depth+1)
+						if e0 != nil {
+							return "", e0
+						}
+						if e1 != nil {
+							return "", e1
+						}
+						if o0 != o1 {
+							return "", fmt.Errorf("condition %s at block %d is neither an atom nor evaluable, and the outcome depends on it (%s vs %s)", x.Cond.String(), b.Index, o0, o1)
+						}
+						return o0, nil
+					}
+					if k == 1 {
+						next = b.Succs[0]
+					} else {
+						next = b.Succs[1]
+					}
+				case *ssa.Jump:
+					next = b.Succs[0]
+				case *ssa.Return:
+					return "return", nil
+				case *ssa.Panic:
+					return "panic", nil
+				}
+				if next != nil {
 					break
 				}
-				if pi < 0 || pi >= len(phi.Edges) {
-					continue
-				}
-				k, okv := evalV(phi.Edges[pi], 0)
-				ups = append(ups, upd{phi, k, okv})
 			}
-			for _, u := range ups {
-				if u.ok {
-					env[u.v] = u.k
-				} else {
-					delete(env, u.v)
-				}
+			if next == nil {
+				return "", fmt.Errorf("fell off block %d", b.Index)
 			}
+			prev, b, i = b, next, 0
 		}
-		for ; i < len(b.Instrs); i++ {
-			in := b.Instrs[i]
-			if lab := outcome(in); lab != "" {
-				return lab, nil
-			}
-			switch x := in.(type) {
-			case *ssa.If:
-				k, ok := evalV(x.Cond, 0)
-				if !ok {
-					return "", fmt.Errorf("condition %s at block %d is neither an atom nor evaluable", x.Cond.String(), b.Index)
-				}
-				prev = b
-				if k == 1 {
-					b = b.Succs[0]
-				} else {
-					b = b.Succs[1]
-				}
-				i = -1
-			case *ssa.Jump:
-				prev = b
-				b = b.Succs[0]
-				i = -1
-			case *ssa.Return:
-				return "return", nil
-			case *ssa.Panic:
-				return "panic", nil
-			}
-			if i == -1 {
-				break
-			}
-		}
-		if i == -1 {
-			i = 0
-			continue
-		}
-		return "", fmt.Errorf("fell off block %d", b.Index)
 	}
-	return "", fmt.Errorf("walk did not terminate (loop without outcome)")
+	return walk(start, idx, nil, 0)
 }
 
 // CmpAtom matches v as a comparison between operands satisfying x and y and
